@@ -199,8 +199,59 @@ func TestVerifTssim(t *testing.T) {
 				tt.GetCircuitBreaker(serverAddress).Reset()
 			}
 		}
-		if err := tt.Close(); err != nil {
-			panic(err)
+		// the last request of the trace: the transport is closed while a stream is under way - the job must end with
+		// a failure report and the producer must be sent away (Receive answers false), nobody may hang
+		{
+			atomic.StoreInt64(&sent, 0)
+			atomic.StoreInt64(&seen, 0)
+			atomic.StoreInt64(&failAt, 0)
+			connReq.SetToFail(false)
+			req.SetToFail(false)
+			tt.GetCircuitBreaker(serverAddress).Reset()
+			f0 := handler.getFailedSnapshotCount(100, 2)
+			s0 := handler.getSnapshotSuccessCount(100, 2)
+			ev := tsEv{Ev: "Op", Kind: "stream", Fault: "stop", N: 40, K: 1 + rng.Intn(3)}
+			sink := tt.GetStreamSink(100, 2)
+			ev.Ret = sink != nil
+			closed := make(chan struct{})
+			if sink != nil {
+				done := make(chan struct{})
+				go func() {
+					defer close(done)
+					for c := 1; c <= ev.N; c++ {
+						if c == ev.K+1 {
+							go func() {
+								_ = tt.Close()
+								close(closed)
+							}()
+						}
+						ok, _ := sink.Receive(pb.Chunk{ShardID: 100, ReplicaID: 2, From: 1, ChunkId: uint64(c - 1),
+							ChunkCount: uint64(ev.N + 7), Index: 9000, Term: 2, Data: []byte{1, 2, 3}})
+						if !ok {
+							ev.Refused = true
+							return
+						}
+						ev.Accepted++
+						time.Sleep(300 * time.Microsecond)
+					}
+				}()
+				select {
+				case <-done:
+				case <-time.After(10 * time.Second):
+					ev.Hung = true
+				}
+				select {
+				case <-closed:
+				case <-time.After(10 * time.Second):
+					ev.Hung = true
+				}
+			} else {
+				_ = tt.Close()
+			}
+			ev.Sent = int(atomic.LoadInt64(&sent))
+			ev.Failed = int(handler.getFailedSnapshotCount(100, 2) - f0)
+			ev.Success = int(handler.getSnapshotSuccessCount(100, 2) - s0)
+			emit(ev)
 		}
 	}
 }
